@@ -139,10 +139,76 @@ def back_edges(b):
     return loops, succ
 
 
+def path_obligations(rep, short, p, var, P, sn, visited, S, tot):
+    """evaluate every potential-panic obligation recorded on one explored path"""
+    for i, e in enumerate(p.events):
+        k = e[0]
+        if k == 'assert':
+            visited.add(e[-1])
+            tot['assert'] += 1
+            cond, exp = e[3], e[4]
+            ok = cond[0] == 'int' and cond[1] == exp
+            if not ok and cond[0] == 'app' and cond[1] == 'ovf':
+                inner = cond[2][0]
+                ok = inner[0] == 'app' and inner[1] in ('Add',) and all(x[0] == 'int' or (x[0] == 'app' and x[1] == 'len') for x in inner[2]) and exp == 0
+            rep.ob('R12.2', '%s: compiler-inserted check (%s) cannot fail' % (short, e[2].split('(')[0].split('{')[0].strip()), ok,
+                   'condition %s expected %s' % (show(cond)[:200], exp), core.rel(e[-1]), sn)
+        elif k in ('slice', 'exact-len', 'index'):
+            visited.add(e[-1])
+            tot['slice'] += 1
+            pre = _Prefix(p.events[:i])
+            L = num.path_lengths(pre, var, P, None) if var is not None else num.Lens()
+            vals = L.values()[:] + ([num.WINDOW, 10 ** 9] if L.unbounded else [])
+
+            def ev_lin(t):
+                l = num.lin(t, var) if var is not None else (None if t[0] != 'int' else (0, t[1]))
+                if l is None and t[0] == 'int':
+                    l = (0, t[1])
+                return l
+            if k == 'slice':
+                LL, a, bnd = ev_lin(e[1]), ev_lin(e[2]), ev_lin(e[3])
+                if None in (LL, a, bnd):
+                    rep.ob('R12.2', '%s: range indexing is in bounds' % short, False, 'cannot bound %s[%s..%s]' % (show(e[1])[:80], show(e[2])[:60], show(e[3])[:60]), core.rel(e[-1]), sn)
+                else:
+                    f = lambda n: 0 <= a[0] * n + a[1] <= bnd[0] * n + bnd[1] <= LL[0] * n + LL[1]
+                    bad = [n for n in vals if not f(n)]
+                    rep.ob('R12.2', '%s: range indexing is in bounds' % short, not bad,
+                           'for len(input)=%s the range %s..%s exceeds length %s (admissible lengths at this point: %s)' % (bad[:3], show(e[2])[:40], show(e[3])[:40], show(e[1])[:40], L.describe()),
+                           core.rel(e[-1]), sn)
+            elif k == 'exact-len':
+                LL, nn = ev_lin(e[1]), ev_lin(e[2])
+                dep = DEP_LENGTHS(e[1], P)
+                if LL is None and dep is not None:
+                    LL = (0, dep[0])
+                    rep.extra.setdefault('dependency_length_summaries_used', {})[dep[1]] = dep[2]
+                if None in (LL, nn) or (nn == (0, -1)):
+                    rep.ob('R12.2', '%s: fixed-size copy has exactly the required length' % short, False, 'cannot bound %s vs %s' % (show(e[1])[:80], show(e[2])[:40]), core.rel(e[-1]), sn)
+                else:
+                    bad = [n for n in vals if LL[0] * n + LL[1] != nn[0] * n + nn[1]]
+                    rep.ob('R12.2', '%s: fixed-size copy has exactly the required length' % short, not bad,
+                           '%s of %s bytes into %s (for len(input)=%s; admissible: %s)' % (e[3], show(e[1])[:60], show(e[2])[:20], bad[:3], L.describe()), core.rel(e[-1]), sn)
+            else:
+                LL, ix = ev_lin(e[1]), ev_lin(e[2])
+                ok = None not in (LL, ix) and all(0 <= ix[0] * n + ix[1] < LL[0] * n + LL[1] for n in vals)
+                rep.ob('R12.2', '%s: element indexing is in bounds' % short, ok, 'index %s of length %s' % (show(e[2])[:40], show(e[1])[:40]), core.rel(e[-1]), sn)
+        elif k == 'unwrap':
+            visited.add(e[-1])
+        elif k in ('panic', 'diverge'):
+            visited.add(e[-1])
+            kind = e[1].split('::')[-1]
+            allowed = [r for (fn, kd), r in ALLOW_PANIC.items() if kd == kind and any(fn == x[1] for x in [('', fn)]) and fn in _enclosing(S, e[-1])]
+            rep.ob('R12.4', '%s: reaches %s' % (short, e[1]), bool(allowed),
+                   'a path of this entry reaches a panic (%s) at %s that is not on the allow-list' % (e[1], core.rel(e[-1])), core.rel(e[-1]), sn)
+        elif k in ('LOOPSUM', 'LOOP-CAP', 'UNHANDLED-TERM', 'indirect-call'):
+            if k == 'LOOPSUM' and e[1] == 'range':
+                continue    # bounded counter loop over a RangeInclusive<u8>: classified by R12.5
+            rep.ob('R12.5', '%s: control flow fully interpreted' % short, False, '%s at %s' % (k, e[-1]), core.rel(str(e[-1])), sn)
+
+
 def run(ctx):
     rep = core.Report('C12', ctx.tier, EXPLANATION, ASSUMPTIONS)
     import interp
-    tot_assert = tot_slice = 0
+    tot = {'assert': 0, 'slice': 0}
     names = []
     for sn in ctx.suite_names:
         names += [sn, sn + '-remote']      # the external-key instantiation reaches the SecretKey error paths
@@ -162,68 +228,7 @@ def run(ctx):
             rep.ob('R12.0', '%s explored completely' % short, s.complete or tolerated, str(s.notes), w, sn)
             var = Sym('input') if (params and params[0] == Sym('input')) else (s.params[0] if s.params else None)
             for p in s.paths + s.diverged:
-                for i, e in enumerate(p.events):
-                    k = e[0]
-                    if k == 'assert':
-                        visited.add(e[-1])
-                        tot_assert += 1
-                        cond, exp = e[3], e[4]
-                        ok = cond[0] == 'int' and cond[1] == exp
-                        if not ok and cond[0] == 'app' and cond[1] == 'ovf':
-                            inner = cond[2][0]
-                            ok = inner[0] == 'app' and inner[1] in ('Add',) and all(x[0] == 'int' or (x[0] == 'app' and x[1] == 'len') for x in inner[2]) and exp == 0
-                        rep.ob('R12.2', '%s: compiler-inserted check (%s) cannot fail' % (short, e[2].split('(')[0].split('{')[0].strip()), ok,
-                               'condition %s expected %s' % (show(cond)[:200], exp), core.rel(e[-1]), sn)
-                    elif k in ('slice', 'exact-len', 'index'):
-                        visited.add(e[-1])
-                        tot_slice += 1
-                        pre = _Prefix(p.events[:i])
-                        L = num.path_lengths(pre, var, P, None) if var is not None else num.Lens()
-                        vals = L.values()[:] + ([num.WINDOW, 10 ** 9] if L.unbounded else [])
-
-                        def ev_lin(t):
-                            l = num.lin(t, var) if var is not None else (None if t[0] != 'int' else (0, t[1]))
-                            if l is None and t[0] == 'int':
-                                l = (0, t[1])
-                            return l
-                        if k == 'slice':
-                            LL, a, bnd = ev_lin(e[1]), ev_lin(e[2]), ev_lin(e[3])
-                            if None in (LL, a, bnd):
-                                rep.ob('R12.2', '%s: range indexing is in bounds' % short, False, 'cannot bound %s[%s..%s]' % (show(e[1])[:80], show(e[2])[:60], show(e[3])[:60]), core.rel(e[-1]), sn)
-                            else:
-                                f = lambda n: 0 <= a[0] * n + a[1] <= bnd[0] * n + bnd[1] <= LL[0] * n + LL[1]
-                                bad = [n for n in vals if not f(n)]
-                                rep.ob('R12.2', '%s: range indexing is in bounds' % short, not bad,
-                                       'for len(input)=%s the range %s..%s exceeds length %s (admissible lengths at this point: %s)' % (bad[:3], show(e[2])[:40], show(e[3])[:40], show(e[1])[:40], L.describe()),
-                                       core.rel(e[-1]), sn)
-                        elif k == 'exact-len':
-                            LL, nn = ev_lin(e[1]), ev_lin(e[2])
-                            dep = DEP_LENGTHS(e[1], P)
-                            if LL is None and dep is not None:
-                                LL = (0, dep[0])
-                                rep.extra.setdefault('dependency_length_summaries_used', {})[dep[1]] = dep[2]
-                            if None in (LL, nn) or (nn == (0, -1)):
-                                rep.ob('R12.2', '%s: fixed-size copy has exactly the required length' % short, False, 'cannot bound %s vs %s' % (show(e[1])[:80], show(e[2])[:40]), core.rel(e[-1]), sn)
-                            else:
-                                bad = [n for n in vals if LL[0] * n + LL[1] != nn[0] * n + nn[1]]
-                                rep.ob('R12.2', '%s: fixed-size copy has exactly the required length' % short, not bad,
-                                       '%s of %s bytes into %s (for len(input)=%s; admissible: %s)' % (e[3], show(e[1])[:60], show(e[2])[:20], bad[:3], L.describe()), core.rel(e[-1]), sn)
-                        else:
-                            LL, ix = ev_lin(e[1]), ev_lin(e[2])
-                            ok = None not in (LL, ix) and all(0 <= ix[0] * n + ix[1] < LL[0] * n + LL[1] for n in vals)
-                            rep.ob('R12.2', '%s: element indexing is in bounds' % short, ok, 'index %s of length %s' % (show(e[2])[:40], show(e[1])[:40]), core.rel(e[-1]), sn)
-                    elif k == 'unwrap':
-                        visited.add(e[-1])
-                    elif k in ('panic', 'diverge'):
-                        visited.add(e[-1])
-                        kind = e[1].split('::')[-1]
-                        allowed = [r for (fn, kd), r in ALLOW_PANIC.items() if kd == kind and any(fn == x[1] for x in [('', fn)]) and fn in _enclosing(S, e[-1])]
-                        rep.ob('R12.4', '%s: reaches %s' % (short, e[1]), bool(allowed),
-                               'a path of this entry reaches a panic (%s) at %s that is not on the allow-list' % (e[1], core.rel(e[-1])), core.rel(e[-1]), sn)
-                    elif k in ('LOOPSUM', 'LOOP-CAP', 'UNHANDLED-TERM', 'indirect-call'):
-                        if k == 'LOOPSUM' and e[1] == 'range':
-                            continue    # bounded counter loop over a RangeInclusive<u8>: classified by R12.5
-                        rep.ob('R12.5', '%s: control flow fully interpreted' % short, False, '%s at %s' % (k, e[-1]), core.rel(str(e[-1])), sn)
+                path_obligations(rep, short, p, var, P, sn, visited, S, tot)
         rep.ob('R12.0', 'entries explored', n_entries >= (40 if not sn.endswith('-remote') else 8), 'entries=%d' % n_entries, '', sn)
         # ---- static inventory vs visited
         sites = static_sites(S)
@@ -284,13 +289,34 @@ def run(ctx):
                 rep.ob('R12.6', 'no narrowing cast of a non-constant in %s' % gp.replace('opaque_ke::', '')[:80], False, detail, core.rel(span), sn)
             else:
                 rep.ob('R12.7', 'no fallible call whose result is never read in %s' % gp.replace('opaque_ke::', '')[:80], False, detail, core.rel(span), sn)
+    # ---- R12.S hand-written serde impls (not reached by the native-path harness): explored on the generic MIR of the library
+    import interp as _interp
+    GS = _interp.GSuite(ctx.g)
+    n_serde = 0
+    for b in GS.bodies.values():
+        tr = b.get('impl_trait_dpath') or ''
+        if not tr.startswith('serde_core::'):
+            continue
+        if b.get('span', '').endswith('!'):
+            continue        # derive output: serde's own code generator (dependency)
+        n_serde += 1
+        params = [Sym('arg%d' % i) for i in range(1, b['argc'] + 1)]
+        I, outs = _interp.summarize(GS, b, params, adts=ctx.adts)
+        short = 'serde:' + b['path'][:80]
+        rep.ob('R12.S', '%s explored completely' % short, not any(n.startswith('STOP') or 'loop cap' in n or 'opaque' in n for n in I.notes), str(I.notes[:3]), core.body_loc(b), None)
+        P0 = {'Npk': -1, 'Nsk': -1}
+        for st, ret in outs:
+            path_obligations(rep, short, core.Path(st, ret), params[0] if params else None, P0, None, set(), GS, tot)
+        for st in I.diverged:
+            path_obligations(rep, short, core.Path(st, ('unk', 'diverged')), params[0] if params else None, P0, None, set(), GS, tot)
+    rep.floor('R12.S', 'hand-written serde impl bodies explored', n_serde, 4)
     import os, facts
     if os.path.isdir(facts.FIXTURES):
         from rules import fixtures
         rep.extra['fixture_selftest_casts_drops'] = fixtures.selftest_casts_drops(ctx)
     ns = len(ctx.suite_names)
-    rep.floor('R12.2', 'assert obligations evaluated', tot_assert, 100 * ns)
-    rep.floor('R12.2', 'slice / copy obligations evaluated', tot_slice, 60 * ns)
+    rep.floor('R12.2', 'assert obligations evaluated', tot['assert'], 100 * ns)
+    rep.floor('R12.2', 'slice / copy obligations evaluated', tot['slice'], 60 * ns)
     from rules import profile
     profile.check(ctx, rep, 'R12.P', list(API) + [tp + '::deserialize' for tp in DECODERS.values()])
     return rep
